@@ -88,8 +88,11 @@ def wsum (w : RPost → Rat) : List RPost → Rat
   | [] => 0
   | p :: ps => w p + wsum w ps
 
-/-- per-commodity sum of the amounts of a posting list -/
-def sumDen (ps : List RPost) (c : Comm) : Rat := wsum (fun p => p.amount.den c) ps
+/-- per-commodity sum of a valuation `v` over a posting list -/
+def sumDenBy (v : RPost → Value) (ps : List RPost) (c : Comm) : Rat := wsum (fun p => (v p).den c) ps
+
+/-- per-commodity sum of the values (what the register shows as amount) of a posting list -/
+def sumDen (ps : List RPost) (c : Comm) : Rat := sumDenBy (fun p => p.value) ps c
 
 theorem wsum_append (w : RPost → Rat) (a b : List RPost) : wsum w (a ++ b) = wsum w a + wsum w b := by
   induction a with
@@ -117,20 +120,20 @@ theorem wsum_perm (w : RPost → Rat) {a b : List RPost} (h : a.Perm b) : wsum w
   | swap x y l => simp only [wsum]; grind
   | trans _ _ ih1 ih2 => exact ih1.trans ih2
 
-/-- every posting amount is a quantity -/
-def AllQty (ps : List RPost) : Prop := ∀ p ∈ ps, isQty p.amount = true
+/-- every posting value is a quantity -/
+def AllQty (ps : List RPost) : Prop := ∀ p ∈ ps, isQty p.value = true
 
 theorem foldl_vplus_den (ps : List RPost) (hq : AllQty ps) (v : Value) (hv : isAcc v = true) (c : Comm) :
-    (ps.foldl (fun v p => vplus v p.amount) v).den c = v.den c + sumDen ps c ∧
-    isAcc (ps.foldl (fun v p => vplus v p.amount) v) = true := by
+    (ps.foldl (fun v p => vplus v p.value) v).den c = v.den c + sumDen ps c ∧
+    isAcc (ps.foldl (fun v p => vplus v p.value) v) = true := by
   induction ps generalizing v with
-  | nil => simp [sumDen, wsum, hv]; grind
+  | nil => simp [sumDen, sumDenBy, wsum, hv]; grind
   | cons p ps ih =>
-    have hp : isQty p.amount = true := hq p (by simp)
+    have hp : isQty p.value = true := hq p (by simp)
     have hq' : AllQty ps := fun r hr => hq r (by simp [hr])
-    have h1 := vplus_isQty v p.amount hv hp
-    have := ih hq' (vplus v p.amount) (isAcc_of_isQty h1)
-    simp only [List.foldl_cons, this, vplus_den v p.amount hv hp c, sumDen, wsum, and_true]
+    have h1 := vplus_isQty v p.value hv hp
+    have := ih hq' (vplus v p.value) (isAcc_of_isQty h1)
+    simp only [List.foldl_cons, this, vplus_den v p.value hv hp c, sumDen, sumDenBy, wsum, and_true]
     grind
 
 theorem sumValue_den (ps : List RPost) (hq : AllQty ps) (c : Comm) : (sumValue ps).den c = sumDen ps c := by
@@ -153,20 +156,20 @@ theorem runTotals_den (t : Value) (ht : isAcc t = true) (ps : List RPost) (hq : 
   induction ps generalizing t k with
   | nil => simp [runTotals] at hr
   | cons p ps ih =>
-    have hp : isQty p.amount = true := hq p (by simp)
+    have hp : isQty p.value = true := hq p (by simp)
     have hq' : AllQty ps := fun r hr => hq r (by simp [hr])
-    have h1 := vplus_isQty t p.amount ht hp
+    have h1 := vplus_isQty t p.value ht hp
     cases k with
     | zero =>
       simp only [runTotals, List.getElem?_cons_zero, Option.some.injEq] at hr
       subst hr
-      simp only [vplus_den t p.amount ht hp c, sumDen, wsum, List.take_succ_cons, List.take_zero]
+      simp only [vplus_den t p.value ht hp c, sumDen, sumDenBy, wsum, List.take_succ_cons, List.take_zero]
       grind
     | succ k =>
       simp only [runTotals, List.getElem?_cons_succ] at hr
-      have := ih (vplus t p.amount) (isAcc_of_isQty h1) hq' k hr
-      rw [this, vplus_den t p.amount ht hp c]
-      simp only [sumDen, List.take_succ_cons, wsum]
+      have := ih (vplus t p.value) (isAcc_of_isQty h1) hq' k hr
+      rw [this, vplus_den t p.value ht hp c]
+      simp only [sumDen, sumDenBy, List.take_succ_cons, wsum]
       grind
 
 /-! ### association maps -/
